@@ -186,9 +186,6 @@ def rng_threading(ctx):
     F = ctx.F
     n = 0
     for body in F.fns():
-        rp = rng_param(body)
-        if rp is None and body.kind != 'Closure':
-            continue
         for c in body.calls():
             if c.is_(r'RngCore::|rand_core::|^std::ops::|^std::sync::|::lock$'):
                 continue
@@ -204,6 +201,14 @@ def rng_threading(ctx):
                 ctx.check(k, body.root or body.key, 'rng passed to %s' % c.name,
                           '%s (line %d) receives an RNG that is not the caller\'s own: %s' % (c.name, c.ln, w), w, c.where())
     ctx.floor(n, 20, 'RNG hand-offs')
+    # the generator state is never duplicated: a copy replays the stream of the original
+    dup = []
+    for body in F.fns():
+        for c in body.calls(r'^std::clone::Clone::clone$'):
+            if RNG_TY.search(c.self_ty or '') and 'Mutex' not in (c.self_ty or ''):
+                dup.append((body, c))
+    ctx.check(not dup, '-', 'RNG state never cloned', 'the RNG is cloned (%s): the copy and the original produce the same stream, so nonces / '
+              'secrets drawn from the copy are handed out again by the instance' % [(b.key, c.ln) for b, c in dup[:2]], 'no Clone of the RNG', '')
     # seeding
     seeds = []
     for body in F.fns():
